@@ -12,5 +12,6 @@ CONSTANTS
   AnyMaxHist = 4
   AnyMaxLen = 2
   AnyMaxSteps = 8
+CONSTRAINT AnyConstraint
 INVARIANTS NeverCompletes
 CHECK_DEADLOCK FALSE
